@@ -59,7 +59,7 @@ RULE = (
     "representative parameters: split_every None/2, groupby tasks max_branch None/2 and disk, take with npartitions, ...); "
     "pairs (EXHAUSTIVE over its catalogue): two-operation pipelines (first/last variant of every bag-valued family followed by "
     "first/last variant of every family, plus every variant that reads its input bag twice) on the layouts [4] and [2,0,2]; "
-    "random: sequences of 0..12 ints/strings/pairs/dicts/lists, 1..6 partitions from explicit sizes (zeros allowed), "
+    "random: sequences of 0..12 ints/strings/pairs/dicts/lists (empty source: ~5 % of the cases), 1..6 partitions from explicit sizes (zeros allowed), "
     "partition_size or npartitions, typed pipelines of 1-3 operations drawn from the catalogue with drawn parameters "
     "(second bags for join/product/concat drawn too).  Non-trivial: a reducing operation (fold, reduction, foldby, distinct, "
     "frequencies, topk, count/sum/max/min/mean/var/std/any/all) applied to a bag whose known layout has an empty AND a non-empty "
@@ -687,7 +687,9 @@ _HEAVY = ("fold", "reduction", "foldby", "distinct", "frequencies", "topk", "sta
 @st.composite
 def random_pipeline(draw):
     kind = draw(st.sampled_from(KINDS))
-    data = draw(st.lists(_ELEMS[kind], max_size=12))
+    # an element-less source bag is a pathological stratum of its own (~5 % of the cases; filters still empty bags later)
+    n = draw(st.sampled_from([0] + [1, 2, 3, 4, 5, 6, 7, 8, 10, 12] * 2))
+    data = draw(st.lists(_ELEMS[kind], min_size=n, max_size=n))
     src = {"kind": kind, "data": data, "part": draw(_layout(len(data)))}
     aux = _aux_from_seed(draw(st.integers(0, 10**6)))
     R = source_ref(src)
